@@ -226,6 +226,9 @@ def pe(t: T, elem: T, value: int, name: str) -> T:
 
 
 _REPO: list = []
+CONFIRMED_FAMILIES = {"AsynchronousSystemTrapsReason", "BscAccessFlags", "BscChangeableFlags", "BscOpenFlags", "CallstackFlag",
+                      "FlockOperation", "KperfTiState", "RtldFlag", "SamplerAction", "SocketMsgFlags", "StatFlags", "ThreadState",
+                      "VmProtection"}
 
 
 def residual_of(conds, elem: T, value: int, name: str) -> Residual:
@@ -272,6 +275,12 @@ def residual_of(conds, elem: T, value: int, name: str) -> Residual:
                     return r_.a[1], r_.a[2].a[0]
                 if (r_.a[0] == "<" and not p_) or (r_.a[0] == ">=" and p_):
                     return r_.a[1], r_.a[2].a[0] - 1
+            if r_.op == "cmp" and r_.a[1].op == "const" and isinstance(r_.a[1].a[0], int):
+                # the constant on the left: `c > W` false is `W >= c`
+                if (r_.a[0] == ">=" and not p_) or (r_.a[0] == "<" and p_):
+                    return r_.a[2], r_.a[1].a[0]
+                if (r_.a[0] == ">" and not p_) or (r_.a[0] == "<=" and p_):
+                    return r_.a[2], r_.a[1].a[0] - 1
             return None
         tests = []
         for r_, p_ in rest:
@@ -285,6 +294,14 @@ def residual_of(conds, elem: T, value: int, name: str) -> Residual:
         rest = [(r_, p_) for r_, p_ in rest
                 if not (above(r_, p_) is not None and any(w_ == above(r_, p_)[0] and low > above(r_, p_)[1] for w_, low in tests))]
     if len(rest) > 1:
+        # several conditions remain.  A necessary condition can still be judged: the word that consists of exactly this
+        # member's value must show the member - evaluate the conditions for that word
+        params = {x for r_, _ in rest for x in sym.walk(r_) if x.op == "param"}
+        if len(params) == 1 and value:
+            w_ = next(iter(params))
+            vals = [(pe(sym.subst(r_, {w_: const(value)}), elem, value, name), p_) for r_, p_ in rest]
+            if all(v_.op == "const" for v_, _ in vals) and not all(bool(v_.a[0]) == p_ for v_, p_ in vals):
+                return Residual("self-miss")
         return Residual("unknown")
     r, pol = rest[0]
     # not (x) / bool(x) / x != 0 / x == 0 around a bit test: the same test, possibly with the opposite polarity
@@ -404,6 +421,14 @@ def check(repo: Repo, run: Run) -> None:
         by_enum.setdefault(s.enum.qualname + "@" + s.scope, []).append(s)
     run.analysed["selection_sites"] = n_sites
     run.floor("R2", "enum selection sites", n_sites, 10)
+    # every flag family that had a recognised selection site on the reviewed tree and still exists must still have one: a
+    # decoder rewritten into a form the rules do not follow (a walk over the set bits, a by-value table) is not judged
+    have = {k.split("@")[0].rsplit(".", 1)[1] for k in by_enum}
+    for fam in sorted(CONFIRMED_FAMILIES):
+        exists = any(fam in m.classes and m.classes[fam].enum_kind for m in repo.modules.values() if m.name.startswith(TH))
+        if exists and fam not in have:
+            deferred.append(f"no recognised member-selection site for the flag family {fam} (it had one on the reviewed tree): its "
+                            f"decoding is in a form these rules do not follow")
 
     # group sites per (function, enum): a function may cover an enum with several loops (open flags)
     for key, group in sorted(by_enum.items()):
@@ -456,6 +481,12 @@ def check(repo: Repo, run: Run) -> None:
                         run.ob("R2", mod, scope, f"{ci.name}.{name}: bit test", False,
                                f"{ci.name}.{name} is shown only when the whole word equals {r.c:#x}: a word with several "
                                f"flags set shows none of their names", facts={"residual": f"word == {r.c:#x}"}, line=s.line)
+                    elif r.kind == "self-miss":
+                        run.ob("R2", mod, scope, f"{ci.name}.{name}: bit test", False,
+                               f"{ci.name}.{name} ({val:#x}) is not shown for the word {val:#x} itself - the word that has exactly "
+                               f"its bits set: an extra condition (a loop left early, a comparison with the whole word) hides the "
+                               f"name of a set bit", facts={"iteration": s.how}, line=s.line, witness=f"word = {val:#x}")
+                        shown_members.add(name)
                     elif r.kind == "true":
                         shown_members.add(name)
         # members chosen one by one (`E.A if word & E.A.value else ...`) instead of by iterating the class
